@@ -36,6 +36,9 @@ PROBES = {
     "ExtendedHeader::as_bytes": "probe_writers",
     "Argument::mut_buf_with_typeinfo_name_unit": "probe_writers",
     "Argument::mut_buf_with_typeinfo_name": "probe_writers",
+    "Argument::as_bytes": "probe_writers",
+    "put_unsigned_value": "probe_writers",
+    "put_signed_value": "probe_writers",
 }
 
 
